@@ -105,7 +105,7 @@ impl Quil for ArithmeticOperand {
     ) -> crate::quil::ToQuilResult<()> {
         match &self {
             ArithmeticOperand::LiteralInteger(value) => write!(f, "{value}").map_err(Into::into),
-            ArithmeticOperand::LiteralReal(value) => write!(f, "{value}").map_err(Into::into),
+            ArithmeticOperand::LiteralReal(value) => write!(f, "{value:?}").map_err(Into::into),
             ArithmeticOperand::MemoryReference(value) => value.write(f, fall_back_to_debug),
         }
     }
@@ -488,7 +488,7 @@ impl Quil for ComparisonOperand {
     ) -> crate::quil::ToQuilResult<()> {
         match &self {
             ComparisonOperand::LiteralInteger(value) => write!(f, "{value}").map_err(Into::into),
-            ComparisonOperand::LiteralReal(value) => write!(f, "{value}").map_err(Into::into),
+            ComparisonOperand::LiteralReal(value) => write!(f, "{value:?}").map_err(Into::into),
             ComparisonOperand::MemoryReference(value) => value.write(f, fall_back_to_debug),
         }
     }
